@@ -65,9 +65,15 @@ def main(argv=None):
             from vf import selftest
             problems = selftest.run_for(prop, args.root, run)
             if problems:
+                rc = report.finish(run, seed=seed, out_dir=args.out, quiet=args.quiet)
+                if rc == 1:
+                    # a violation located on this tree is the verdict; the sensitivity suite's complaints (variants written
+                    # against the unchanged tree) are shown but do not mask it
+                    for p in problems:
+                        print("NOTE property=%s sensitivity suite on this tree: %s" % (prop, p))
+                    return 1
                 for p in problems:
                     print("ANALYSIS-ERROR property=%s sensitivity: %s" % (prop, p))
-                report.finish(run, seed=seed, out_dir=args.out, quiet=args.quiet)
                 return 2
         return report.finish(run, seed=seed, out_dir=args.out, quiet=args.quiet)
     except model.AnalysisError as e:
